@@ -39,7 +39,7 @@ def main():
             evidence_file='evidence/%s.json' % pid,
             replay_cmd_template='bin/vcheck --replay {path}',
             engine=e['engine'],
-            level_claimed=dict(category='other', text=e['text'], design_ref=e['design_ref']),
+            level_claimed=dict(category=e.get('category', 'other'), text=e['text'], design_ref=e['design_ref']),
             level_note=e['note'],
             technique=e['technique'],
         ))
